@@ -33,7 +33,61 @@ def gen_case(rng, i, tier):
     return {'layers': layers, 'labels': sorted(labels), 'cli': (i % 97 == 0)}
 
 
+def _comps(n):
+    if n == 0:
+        return [[]]
+    out = []
+    for f in range(1, n + 1):
+        for rest in _comps(n - f):
+            out.append([f] + rest)
+    return out
+
+
+def _trees(n, scalars, keys):
+    """All trees with exactly n nodes over the given leaves and keys."""
+    import itertools
+    if n == 1:
+        return list(scalars) + [{}, []]
+    out = []
+    for parts in _comps(n - 1):
+        kids_list = list(itertools.product(*[_trees(p, scalars, keys) for p in parts]))
+        if len(parts) <= len(keys):
+            for ks in itertools.combinations(keys, len(parts)):
+                for kids in kids_list:
+                    out.append(dict(zip(ks, kids)))
+        for kids in kids_list:
+            out.append(list(kids))
+    return out
+
+
+_SWEEP = {}
+
+
+def sweep(tier):
+    """Small-scope sweep: every parent tree with <= 3 nodes x every child tree with <= 3 nodes (leaves include
+    $delete and the list directive entries). quick takes every third pair, thorough all of them."""
+    if tier in _SWEEP:
+        return _SWEEP[tier]
+    ents = [{'$delete': 1}, {'$delete': 'x'}, {'$match': 1, '$value': 2}, {'$match': 'x', '$value': 1}, {'$replace': True}, {'$match': {}, 'a': 2}, {'$delete': {}}, {'$match': 1, '$value': 1}]
+    P = [t for n in (1, 2, 3) for t in _trees(n, [1, 'x', None], ['a', 'b'])]
+    C = [t for n in (1, 2, 3) for t in _trees(n, [1, 2, 'x', '$delete', None] + ents, ['a', 'b'])]
+    out = []
+    k = 0
+    for p in P:
+        for c in C:
+            k += 1
+            if tier == 'quick' and k % 4:
+                continue
+            out.append({'layers': [clone(p), clone(c)], 'labels': ['sweep'], 'cli': False})
+    _SWEEP[tier] = out
+    return out
+
+
 def fixed_cases(tier):
+    return _fixed(tier) + sweep(tier)
+
+
+def _fixed(tier):
     P = {'a': 1, 'm': {'x': 1, 'y': [1, 2]}, 'l': [{'n': 1, 'v': 1}, {'n': 2, 'v': 1}, 3], 'e': {}, 'z': None}
     kids = [
         {'a': 1}, {'a': 2}, {'a': 1.0}, {'m': {'x': '$delete'}}, {'q': '$delete'}, {'z': '$delete'}, {'m': 5}, {'m': [1]}, {'e': 5}, {'e': [1]},
